@@ -31,6 +31,10 @@ func (s *Service) MigrateTopicStoreV1V2() (rErr error) {
 	}
 
 	backup := s.StorageService.Path() + TopicStoreBackupSuffix
+	// A backup left behind by an interrupted migration is stale; the Bolt file itself is always consistent.
+	if err := os.Remove(backup); err != nil && !os.IsNotExist(err) {
+		return fmt.Errorf("cannot remove stale backup of v1 topic store: %w", err)
+	}
 	var n int64
 	if n, err = CopyFile(s.StorageService.Path(), backup); err != nil {
 		return fmt.Errorf("cannot backup v1 topic store: %w", err)
